@@ -17,6 +17,8 @@ B_THOROUGH = B_QUICK + ['x64-soft', 'x64-alt1', 'x64-alt2', 'x64-aesni-all', 'a6
                         'x86-soft-all', 'x86-alt1-all']
 
 REGISTRY = {
+    'C17': dict(module='c17', level='other', technique='dispatch-shape rule over resolved MIR; per-lane term equality / key-lane dependence by global value numbering',
+                quick=['x64-all', 'x64-soft-all'], thorough=['x64-all', 'x64-soft-all', 'x64-alt1-all', 'a64-all', 'a64-soft-all', 'x86-all', 'x86-alt1-all']),
     'C04': dict(module='c04', level='other', technique='override-discipline and InOut dataflow rules; per-lane term equality (global value numbering) of parallel and single-block routines',
                 quick=['x64', 'x64-alt1'], thorough=['x64', 'x64-soft', 'x64-alt1', 'x64-alt2', 'a64', 'a64-soft-all', 'x86', 'x86-alt1-all']),
     'C03': dict(module='c03', level='other', technique='normalised-MIR equality across feature sets; global value numbering across the serpent_no_unroll configurations',
